@@ -56,7 +56,7 @@ META = {
          'Every session is run twice; stripped coloured output must equal plain output character for character.',
          'Escape sequences are those the tool itself emits (SGR).'),
  'C18': ('totality PBT + coverage-guided fuzzing (atheris) + subprocess byte fuzzing: only documented rejection channels may be used',
-         'Mutated and arbitrary lines/matchers/commands/bytes are thrown at the four entry points; any escaping exception or traceback is a violation.',
+         'Mutated and arbitrary lines/matchers/commands/bytes are thrown at the four entry points; any exception that escapes the tool (a traceback on stderr, an aborted prompt loop, a wrong exit status, an unclosed connection) is a violation; an internal error the line loop catches, prints and survives is counted in the evidence, not reported (DESIGN 10.3).',
          'A slow input is inconclusive, never a violation. LC_ALL=C.UTF-8; strictly decoding standard streams (as under an ordinary UTF-8 locale) are reproduced with PYTHONIOENCODING.'),
  'C19': ('differential PBT: generated argument vectors vs reference splitter; argv observed by the child / by Python inside real gdb via a shim',
          'parse_args is compared with an own left-to-right splitter; forwarded words are observed from the receiving side.',
